@@ -79,9 +79,10 @@ Definition after_read (s : sstate) (chunk : bytes) (acc : list bytes) : pres * s
   end.
 
 (* Read schedule items: RReq k = a Read that returns min(k, free space, remaining stream) bytes with err = nil;
-   RIgn = a Read that returns (0, err) with ignoreError(err) = true (the loop `continue`s without parsing).
+   RIgn k = a Read that returns (n, err) with ignoreError(err) = true, n = min(k, free space, remaining): io.Reader permits data
+   together with an error; the bytes are kept (recvOff += readSize) and the loop `continue`s without parsing.
    When the schedule is exhausted the reader returns io.EOF and readTlvStream returns nil. *)
-Inductive rditem := RReq (k : N) | RIgn.
+Inductive rditem := RReq (k : N) | RIgn (k : N).
 
 (* result: outcome, frames (oldest first), bytes consumed from the stream, final state *)
 Fixpoint run_stream (sched : list rditem) (s : sstate) (rest : bytes) (acc : list bytes) (consumed : N)
@@ -92,7 +93,9 @@ Fixpoint run_stream (sched : list rditem) (s : sstate) (rest : bytes) (acc : lis
     let free := c_recvBufSize - recvOff s in
     if free =? 0 then (SSpin, rev acc, consumed, s)        (* Read(recvBuf[len:]) returns (0, nil) for ever *)
     else match it with
-    | RIgn => run_stream sched' s rest acc consumed
+    | RIgn k =>
+      let chunk := takeN (N.min k free) rest in
+      run_stream sched' (mkS (tlvOff s) (unread s ++ chunk)) (dropN (lenN chunk) rest) acc (consumed + lenN chunk)
     | RReq k =>
       let chunk := takeN (N.min k free) rest in           (* min(k, free, remaining) bytes *)
       let n := lenN chunk in
@@ -109,6 +112,10 @@ Fixpoint run_stream (sched : list rditem) (s : sstate) (rest : bytes) (acc : lis
 Definition run (stream : bytes) (sched : list rditem) : sres * list bytes * N * sstate :=
   run_stream sched s_init stream [] 0.
 End Framer.
+
+(* schedules whose failing reads carry no data (what net.Conn does); the theorems about ALL schedules are stated for these,
+   data arriving together with an ignorable error is covered by the differential run *)
+Definition ign_nodata (it : rditem) : Prop := match it with RIgn k => k = 0 | RReq _ => True end.
 
 (* schedule helper used by the runner: k*n *)
 Fixpoint rep_item (it : rditem) (n : nat) (tl : list rditem) : list rditem :=
